@@ -17,6 +17,7 @@ import (
 
 	"github.com/gorilla/mux"
 	huskyotlp "github.com/honeycombio/husky/otlp"
+	"github.com/klauspost/compress/zstd"
 	"github.com/honeycombio/refinery/config"
 	"github.com/honeycombio/refinery/logger"
 	"github.com/honeycombio/refinery/metrics"
@@ -38,12 +39,21 @@ type r2Request struct {
 type r2Sink struct {
 	mu   sync.Mutex
 	reqs map[string][]r2Request // by run id (first path element)
+	fail map[string]*r2Fail     // by "<run>/1/batch/<dataset>"
 }
+
+type r2Fail struct {
+	remaining, seen int
+	status          int
+	retryAfter      string
+}
+
+var r2Zstd, _ = zstd.NewReader(nil)
 
 var (
 	r2Once   sync.Once
 	r2Server *httptest.Server
-	r2Store  = &r2Sink{reqs: map[string][]r2Request{}}
+	r2Store  = &r2Sink{reqs: map[string][]r2Request{}, fail: map[string]*r2Fail{}}
 	r2RunSeq int
 )
 
@@ -51,12 +61,29 @@ func r2ServerURL() string {
 	r2Once.Do(func() {
 		r2Server = httptest.NewServer(http.HandlerFunc(func(w http.ResponseWriter, req *http.Request) {
 			body, _ := io.ReadAll(req.Body)
+			if req.Header.Get("Content-Encoding") == "zstd" {
+				if dec, err := r2Zstd.DecodeAll(body, nil); err == nil {
+					body = dec
+				}
+			}
 			// path: /<run>/<prefix>/1/batch/<dataset>
 			parts := strings.SplitN(strings.TrimPrefix(req.URL.EscapedPath(), "/"), "/", 3)
 			if len(parts) < 3 {
 				w.WriteHeader(404)
 				return
 			}
+			// scripted refusals (429 / 503 + Retry-After) for the delivery scenarios
+			r2Store.mu.Lock()
+			if f := r2Store.fail[parts[0]+"/"+parts[2]]; f != nil && f.remaining > 0 {
+				f.remaining--
+				f.seen++
+				status, ra := f.status, f.retryAfter
+				r2Store.mu.Unlock()
+				w.Header().Set("Retry-After", ra)
+				w.WriteHeader(status)
+				return
+			}
+			r2Store.mu.Unlock()
 			r2Store.mu.Lock()
 			r2Store.reqs[parts[0]] = append(r2Store.reqs[parts[0]], r2Request{Prefix: parts[1], Path: "/" + parts[2],
 				APIKey: req.Header.Get("X-Honeycomb-Team"), Body: body, Headers: req.Header.Clone()})
